@@ -6,10 +6,26 @@
 
 extern void rt_spawn(int idx);
 
+// "crowd n k": n further fibers, each yielding k times (anonymous: they count towards the number of ready fibers, the
+// fairness bound is still checked for the program fibers)
+static long crowd_total;
+static void* crowd_body(void* p) {
+  for (long i = 0; i < (long)(intptr_t)p; i++) fiber_yield();
+  return 0;
+}
 static int yield_do_op(int idx, op_t* op) {
   (void)idx;
   if (!strcmp(op->name, "spawn")) {
     rt_spawn(op->a);
+    return 1;
+  }
+  if (!strcmp(op->name, "crowd")) {
+    for (int i = 0; i < op->a; i++) {
+      fiber_t* f = fiber_create(16384, &crowd_body, (void*)(intptr_t)op->b);
+      if (!f) vs_violation("engine_limit", "fiber_create failed");
+      fiber_detach(f);
+    }
+    crowd_total += op->a;
     return 1;
   }
   return 0;
@@ -21,7 +37,7 @@ GHOST static void yield_final(void) {
   int n;
   const gev_t* ev = g_evlog(&n);
   const int nf = g_case.n_fibers;
-  const long bound = 2 * (nf + 1) + 2;
+  const long bound = 2 * (nf + crowd_total + 1) + 2;
   // for each program fiber: thread it is queued on (-1 = not ready), bypass count
   int ready_on[MAX_FIBERS];
   long bypass[MAX_FIBERS];
@@ -60,8 +76,10 @@ GHOST static void yield_final(void) {
   for (int i = 0; i < nf; i++)
     for (int j = 0; j < g_case.n_ops[i]; j++)
       if (!strcmp(g_case.ops[i][j].name, "yield")) total_yields += g_case.ops[i][j].a;
+      else if (!strcmp(g_case.ops[i][j].name, "crowd")) total_yields += (long)g_case.ops[i][j].a * g_case.ops[i][j].b;
   vs_label_max("max_bypass", (uint64_t)max_bypass);
   vs_label_max("max_ready", (uint64_t)max_ready);
+  vs_label_max("crowd", (uint64_t)crowd_total);
   if (max_ready >= 3 && total_yields >= 5 * bound) rt_nontrivial("yield");
   vs_rt_exit();
 }
